@@ -164,7 +164,8 @@ def _resolve_module_name(ref: str, module: str | None) -> str | None:
     if module != ref and module.isidentifier():
         return module
     # Harder path, find the actual object in the stack frame, if possible.
-    obj = frames.extract(ref)
+    #   (From the caller's frame on: the names this library binds are not the caller's.)
+    obj = frames.extract(ref, frame=frames.getcaller())
     module = getattr(obj, "__module__", None)
     # (An object reports the module it was made in, which need not bind this name to it:
     #   `Tree = Union[List["Tree"], int]` reports `typing`, `from decimal import Decimal as Dec`
